@@ -256,6 +256,63 @@ func c07Structures(r *run.Run) {
 	}
 }
 
+// history independence for positional state: every simple lookup on ALL ordered pairs of short
+// sequences - the second Apply on a used Context must not see anything the first one left behind
+// (positions of earlier matches, cached search results).
+func c07HistoryPairs(r *run.Run) {
+	alphabet := []glyph.ID{gen.GA, gen.GB, gen.GM, gen.GL}
+	flags := []int{0, 1, 4}
+	var first, second [][]glyph.ID
+	gen.Sequences(alphabet, 3, func(g []glyph.ID) bool { first = append(first, append([]glyph.ID{}, g...)); return true })
+	gen.Sequences(alphabet, 4, func(g []glyph.ID) bool { second = append(second, append([]glyph.ID{}, g...)); return true })
+	r.Explore(explore.Config{Name: "C07.history-pairs", Deadline: r.PartDeadline(0.3)},
+		fmt.Sprintf("every simple GSUB and GPOS lookup of the menus x flags {none, ignore marks, mark set 0} on ALL ordered pairs (first sequence of length <= 3, second of length <= 4 over {A,B,M,L}: %d x %d pairs): Apply(second) on the Context that has just processed the first equals Apply(second) on a fresh Context", len(first), len(second)),
+		func(c *explore.Ctx) {
+			gpos := c.Bool("gpos")
+			menu := gen.GsubSimple
+			if gpos {
+				menu = gen.GposSimple
+			}
+			k := c.Choose(len(menu), "lookup")
+			f := gen.Flags[flags[c.Choose(len(flags), "flags")]]
+			gd, _ := gen.Gdef(0)
+			ll := gtab.LookupList{gen.MakeLookup(menu[k].Type, f, menu[k].Sub())}
+			desc := menu[k].Name + " " + f.Name
+			c.Sample(func() any { return desc })
+			c.Outcome(desc)
+			mk := func(g []glyph.ID) []glyph.Info { return mkSeq(g, gpos) }
+			fresh := make([]string, len(second))
+			if p := guard(func() {
+				for i, s2 := range second {
+					fresh[i] = fmtInfos(gtab.NewContext(ll, gd, []gtab.LookupIndex{0}).Apply(mk(s2)))
+				}
+			}); p != "" {
+				c.Tag("panic on a fresh Context (reported by C07.simple): " + explore.PanicSignature(p))
+				return
+			}
+			c.Nontrivial()
+			ctx := gtab.NewContext(ll, gd, []gtab.LookupIndex{0})
+			var bad string
+			if p := guard(func() {
+				for _, s1 := range first {
+					for i, s2 := range second {
+						ctx.Apply(mk(s1))
+						if got := fmtInfos(ctx.Apply(mk(s2))); got != fresh[i] {
+							bad = fmt.Sprintf("after Apply(%s) on one Context, Apply(%s) gives [%s], a fresh Context gives [%s]", gen.SeqName(s1), gen.SeqName(s2), got, fresh[i])
+							return
+						}
+					}
+				}
+			}); p != "" {
+				c.Fail("C07.panic", "history pairs: "+explore.PanicSignature(p), "Apply on a used Context panics: %s; %s", p, desc)
+				return
+			}
+			if bad != "" {
+				c.Fail("C07.history", "pairs: "+menu[k].Name, "%s; lookup %s", bad, desc)
+			}
+		})
+}
+
 // every simple lookup of the menus under every flag combination on all short sequences: the safety
 // clauses (no panic, termination, text conserved) do not need the reference shaper, so lookup types it
 // does not model (cursive attachment) are included
@@ -574,6 +631,7 @@ func init() {
 		}
 		// cheap parts first; the history search is by far the largest and takes what remains
 		c07Simple(r)
+		c07HistoryPairs(r)
 		c07Structures(r)
 		c07Bytes(r)
 		c07MapOrder(r)
